@@ -174,6 +174,42 @@ let handle (line : string) : string =
     ";n=" ^ string_of_int (List.length fin.ss_acc) ^ ";calls=" ^ dec_of_n fin.ss_calls ^
     ";pfx=" ^ b2s (is_prefix fin.ss_acc canon) ^ ";full=" ^ b2s (fin.ss_acc = canon) ^
     ";h=" ^ hex_of_str fin.ss_acc
+  | [("E6" | "E5") as kind; blk] ->
+    let alpha, maxlen =
+      if kind = "E6" then [| "a"; " "; "-"; ">"; ":"; "#"; "\n"; "\r"; "1" |], 7
+      else [| "    "; "a"; "b.c"; " "; " -> "; ":"; "("; ")"; "1"; "#"; "x:"; "\n" |], 6 in
+    let k = Array.length alpha in
+    let rec pow b e = if e = 0 then 1 else b * pow b (e - 1) in
+    let sweep_string idx =
+      let idx = ref idx and len = ref 0 and res = ref None and fin = ref false in
+      while not !fin do
+        if !len > maxlen then fin := true
+        else begin
+          let n = pow k !len in
+          if !idx < n then begin
+            let digits = Array.make !len 0 in
+            let x = ref !idx in
+            for i = !len - 1 downto 0 do digits.(i) <- !x mod k; x := !x / k done;
+            res := Some (String.concat "" (Array.to_list (Array.map (fun d -> alpha.(d)) digits)));
+            fin := true
+          end else begin idx := !idx - n; incr len end
+        end
+      done; !res in
+    let h = ref 0xcbf29ce484222325L in
+    let fnv s = String.iter (fun c -> h := Int64.mul (Int64.logxor !h (Int64.of_int (Char.code c))) 0x100000001b3L) s in
+    let blk = int_of_string blk in
+    let n = ref 0 in
+    (try
+      for idx = blk * 4096 to (blk + 1) * 4096 - 1 do
+        match sweep_string idx with
+        | None -> raise Exit
+        | Some s ->
+          let b = str_of_string s in
+          let line = if kind = "E6" then String.concat ";" (List.map show_item (items b)) else show_item (try_parse b) in
+          fnv line; fnv "\n"; incr n
+      done
+    with Exit -> ());
+    Printf.sprintf "dg=%016Lx;n=%d" !h !n
   | "A" :: toks ->
     (* a trace AST: e:<cls>:<msg|~>  f:<cls>:<meth>:<file>:<line>  c (start of the cause) *)
     let parse_node toks =
